@@ -471,6 +471,10 @@ def _loops(ck, p):
             for bi, t in f.calls():
                 if bi not in body or norm(t["f"].get("inst") or "") not in ("core::slice::{impl}::get", "core::slice::{impl}::get_mut") or len(t["args"]) < 2:
                     continue
+                # the loop that this get() steers is the innermost one around it: leaving that one on None is what counts
+                # (an outer loop has its own test of the cursor at its head)
+                if any(bi in b2 and len(b2) < len(body) for h2, b2 in loops.items() if h2 != h):
+                    continue
                 idx = place_of(t["args"][1])
                 if not idx or len(idx) != 1:
                     continue
